@@ -94,3 +94,15 @@ axiom("forall(lambda f, s, n: implies(FAILS(s), FAILS(LAZYS(f, s, n))), f='U', s
 axiom("forall(lambda f, s: implies(FIN(s) and not FAILS(MAPS(f, s)), SEQOF(MAPS(f, s)) == MAPQ(f, SEQOF(s))), f='U', s='STREAM')")
 ufunc("WITS", ["U", "U", "STREAM"], "U")
 axiom("forall(lambda f, g, s: MAPS(f, s) == MAPS(g, s) or APP(f, WITS(f, g, s)) != APP(g, WITS(f, g, s)), f='U', g='U', s='STREAM')")
+
+# --- prefix / suffix laws used by the batched (unshuffled concurrent) loop ---
+axiom("forall(lambda s, c, m: implies(c >= 0 and m >= 0, CAT(TAKES(s, c), TAKES(DROPS(s, c), m)) == TAKES(s, c + m)), s='STREAM')")
+axiom("forall(lambda s: TAKES(s, 0) == EMPTY(), s='STREAM')")
+axiom("forall(lambda s: implies(FIN(s) and not FAILS(s), TAKES(s, LEN(SEQOF(s))) == SEQOF(s) and OFSEQ(SEQOF(s)) == s), s='STREAM')")
+axiom("forall(lambda s: DROPS(s, 0) == s, s='STREAM')")
+# flat-map distributes over concatenation
+axiom("forall(lambda f, a, b: CATS(FLATS(MAPS(f, OFSEQ(a))), FLATS(MAPS(f, OFSEQ(b)))) == FLATS(MAPS(f, OFSEQ(CAT(a, b)))), f='U', a='SEQ', b='SEQ')")
+axiom("forall(lambda f: FLATS(MAPS(f, OFSEQ(EMPTY()))) == EMPTYS(), f='U')")
+axiom("forall(lambda a, b: FAILS(CATS(a, b)) == (FAILS(a) or FAILS(b)), a='STREAM', b='STREAM')")
+axiom("not FAILS(EMPTYS())")
+axiom("forall(lambda a, b: FIN(CATS(a, b)) == (FIN(a) and FIN(b)), a='STREAM', b='STREAM')")
